@@ -30,6 +30,17 @@ Proof.
   exact (segprefix_guard_sound g cwd root_arg p a Hg Hc Hp).
 Qed.
 
+(** The executable access list used by the correspondence is covered by the theorem. *)
+Corollary site_accesses_inside g cwd root_arg (sites : list site) :
+  raise_sound g = true -> is_abs cwd = true -> sites_ok sites = true ->
+  forall i m b c a, In (c, a) (site_accesses g cwd root_arg i m b sites) -> inside (abspath cwd root_arg) a.
+Proof.
+  intros Hg Hc Hok i m b c a Hin. unfold site_accesses in Hin. apply in_flat_map in Hin as (s & Hs & Hin).
+  destruct (String.eqb (st_method s) m && String.eqb (st_branch s) b)%bool; [|contradiction].
+  destruct (peval g true cwd root_arg i (st_arg s)) as [x|] eqn:E; [|contradiction].
+  destruct Hin as [Hin|[]]. inversion Hin; subst. eapply ops_accesses_inside; eauto.
+Qed.
+
 (** File handles: whatever string a handle carries (built by this system from a name with the slashes changed,
     produced by an unconstrained system, or written by hand), the sites that consume it stay inside. *)
 Corollary handle_consumers_inside g cwd root_arg (sites : list site) :
